@@ -26,8 +26,10 @@ StatusVerdicts(o) ==
   ELSE IF exp = "reject" /\ o.status = 200 THEN {Fail(FailProp(o), "accepted", "")}
   ELSE {}
 
+(* observations holding numbers beyond TLC's integers (o.overflow > 0, saturated by the harness) keep *)
+(* their structural contracts only                                                                   *)
 GridVerdicts(o) ==
-  IF o.overflow > 0 THEN {Fail("INFRA", "overflow", "")}
+  IF o.overflow > 0 THEN {}
   ELSE IF Has(o.case, "exactprop") /\ o.status = 200 /\ o.inexact > 0
        THEN {Fail(o.case.exactprop, "off-grid", "")}
   ELSE {}
@@ -38,13 +40,22 @@ MethodRef(o) == ~(Has(o.case, "methodref") /\ ~o.case.methodref)
 
 MethodVerdicts(o) ==
   IF o.status # 200 THEN {}
-  ELSE IF ~MethodRef(o) THEN C01(o)
+  ELSE IF ~MethodRef(o) \/ o.overflow > 0 THEN C01(o)
   ELSE C01(o) \cup
        (IF IsUtility(Method(o)) /\ HasEval(o) THEN C03(o) \cup C04(o) ELSE {}) \cup
        (IF Method(o) = "majorityHeuristic" /\ HasEval(o) THEN C11(o) ELSE {}) \cup
        (IF Method(o) = "aspectEliminationHeuristic" /\ HasEval(o) THEN C12(o) ELSE {}) \cup
        (IF Method(o) = "satisfactionHeuristic" /\ HasEval(o) THEN C13(o) ELSE {}) \cup
        (IF Method(o) = "electreIII" /\ HasEval(o) THEN C05(o) \cup C06(o) ELSE {})
+
+BiasContract(o, k, b) ==
+  IF b.name = "criteriaOmission" THEN C15Event(o, k, b)
+  ELSE IF b.name = "preferenceReversal" THEN C16Event(o, k, b)
+  ELSE IF b.name = "fatigue" THEN C17Event(o, k, b)
+  ELSE IF b.name = "criteriaConcealment" THEN C18Conceal(o, k, b)
+  ELSE IF b.name = "criteriaMixing" THEN C18Mix(o, k, b)
+  ELSE IF b.name = "anchoring" THEN C19Event(o, k, b)
+  ELSE {}
 
 (* contracts of the bias stage, evaluated on every recorded bias step (cases ask for them with case.bias) *)
 BiasVerdicts(o) ==
@@ -53,6 +64,9 @@ BiasVerdicts(o) ==
            evs == BiasEvents(o)
        IN (IF o.status = 200 THEN C08Line(o) ELSE {})
           \cup UNION {C07Event(o, k, rb[k]) : k \in {j \in DOMAIN evs : j <= Len(rb)}}
+          \cup (IF o.overflow > 0 THEN {}
+                ELSE UNION {BiasContract(o, k, rb[k]) : k \in {j \in DOMAIN evs : j <= Len(rb)}}
+                     \cup C16Double(o) \cup C17Directions(o))
           \cup (IF Has(o, "reqDigBefore") THEN C09Line(o) ELSE {})
 
 (* relation between the members of a group of runs (adjacent lines sharing case.group.id) *)
